@@ -47,6 +47,8 @@ def marshaller(
     """
     nodes = graph.static_order(t)
     context: ctx.TypeContext[routines.AbstractMarshaller] = ctx.TypeContext()
+    # `Any` members are not part of the graph, they are passed through.
+    context[tp.Any] = routines.NoOpMarshaller(tp.Any, context)
     if not nodes:
         return routines.NoOpMarshaller(t=t, context=context, var=None)  # type: ignore[arg-type]
 
